@@ -277,6 +277,16 @@ def gen_file(rng, w, depth, outer_syms, earlier_syms):
       stmts.append(st)
       return stmts
     stmts.append(st)
+  if rng.random() < 0.15 and 'mm' not in symtab:
+    # one selector text used before and after an import that re-binds its first component to another module
+    a, b = rng.sample([['c19pkg', 'sub', 'm2'], ['c19pkg', 'alt', 'm2']], 2)
+    forms = lambda m: rng.choice([{'k': 'imp', 'module': m, 'from': False, 'alias': 'mm'},   # noqa: E731
+                                  {'k': 'imp', 'module': m, 'from': True, 'alias': 'mm'}])
+    ta = name_to_id('.'.join(a) + ':shared')
+    tb = name_to_id('.'.join(b) + ':shared')
+    stmts += [forms(a), {'k': 'bind', 'sel': ['mm', 'shared'], 'arg': 'a', 'v': rng.randint(1, 49), '_target': ta},
+              forms(b), {'k': 'bind', 'sel': ['mm', 'shared'], 'arg': 'a', 'v': rng.randint(50, 99), '_target': tb}]
+    symtab['mm'] = mods[tuple(b)]
   if rng.random() < 0.25:
     # a scoped reference to a class, written *before* the first statement that configures one of its methods
     for i, st in enumerate(stmts):
